@@ -55,7 +55,7 @@ def _exec(self, suspensions, assignments):
     res = w.exec_phase(suspensions, assignments)
     if w.ended and w.exception is not None and w.exception[0] == "exec":
         e = w.exception[2]
-        w.flag({"C08"}, "executor-raised", f"tick {w.tick}: {type(e).__name__}: {e}", w.exception[3])
+        w.flag({"C08"}, "executor-raised", f"tick {w.tick}: {type(e).__name__}: {e}", ("model-reject:" + w.last_reject) if w.last_reject else w.exception[3])
         raise e
     for m in w.mm[n0:]:
         if m.kind == "inadmissible-command-executed":
@@ -306,6 +306,32 @@ def space(kind, tier):
              ("priority-pool", (2, 10, 40, True, False)), ("overbook", (1, 2, 8, True, True)), ("overbook", (2, 3, 4, True, True)), ("starter", (1, 2, 8, False, False))]
     if kind == "gen":
         return gen_space(tier)
+    if kind == "susp":
+        # preemption under the priority scheduler; the run is cut at every tick around the write-out
+        for tps in (1, 2):
+            for cfg in ((1, 1, 40, True, False), (1, 1, 25, True, False), (2, 1, 40, True, False)):
+                for batch in (("B", 0, "chain3", ("s2", "s2", "s1")), ("I", 0, "chain2", ("s2", "s3"))):
+                    for qarr in (1, 2, 3):
+                        for durt in range(2, 15 if q else 21):
+                            combo = (batch, ("Q", qarr, "single", ("s1",)))
+                            out.append(("priority", cfg, combo, tps, durt, dict(over=9.5), None))
+                            out.append(("priority", cfg, combo + (("Q", qarr, "single", ("s2",)),), tps, durt, dict(over=9.5), None))
+        return out
+    if kind == "dags":
+        # every DAG shape through the real main loop with single-operator containers: sibling containers that
+        # end in the same tick, several sinks, several roots
+        cfgs = [("priority", (1, 10, 40, False, False)), ("priority", (2, 2, 25, False, False)), ("overbook", (1, 3, 8, True, True)),
+                ("naive", (2, 2, 8, False, False)), ("starter", (3, 2, 8, False, False)), ("naive", (1, 2, 8, True, False)),
+                ("priority", (1, 10, 40, True, False)), ("priority-pool", (2, 10, 40, True, False))]
+        shapes = list(f5.SHAPES)
+        profsets = (("s1",), ("s2", "s1"), ("s1", "s2"), ("s1", "over"))
+        for tps in ((1,) if q else (1, 2)):
+            wl = f5.workloads(tps, (("B", "Q"), shapes, profsets, (0, 1)), (("B",), shapes, (("s1",), ("s2", "s1")), (0, 1)) if not q else (("B",), ("fork", "join", "diamond", "single"), (("s1",), ("s2", "s1")), (0, 1)), None)
+            for algo, cfg in cfgs:
+                over = (max(1, int(cfg[2] / 10)) + 0.5) if algo.startswith("priority") else 5.0
+                for combo in wl:
+                    out.append((algo, cfg, combo, tps, 24, dict(over=over), None))
+        return out
     if kind == "recount":
         for tps in ((1, 2) if q else (1, 2, 10)):
             for durt in (0, 1, 8, 20):      # duration in ticks
